@@ -364,6 +364,95 @@ func counterexampleQ(when, then *bform, constraint *bform, forallOpaque bool) st
 	if constraint != nil {
 		collectPairs(constraint, pairs, opaques)
 	}
+	// A term that is compared with one other term only, always in the same atom (len(x) == 0 ...), contributes one
+	// independent truth value: such atoms are enumerated as booleans instead of as positions in the ordering. (Exact: the
+	// atom's truth is not constrained by any other comparison, except through the constants 0 and MAX, whose extremal
+	// position only makes `t < 0` / `t > MAX` unsatisfiable - atoms of that form are left alone.)
+	{
+		uses := map[string]int{}
+		for k := range pairs {
+			uses[k.a]++
+			uses[k.b]++
+		}
+		texts := map[pairKey]map[string]bool{}
+		var scan func(f *bform)
+		scan = func(f *bform) {
+			if f == nil {
+				return
+			}
+			if f.op == "atom" {
+				k, _ := canonPair(f.a, f.b)
+				if texts[k] == nil {
+					texts[k] = map[string]bool{}
+				}
+				texts[k][f.a+f.rel+f.b] = true
+			}
+			for _, k := range f.kids {
+				scan(k)
+			}
+		}
+		scan(when)
+		scan(then)
+		scan(constraint)
+		collapse := map[pairKey]bool{}
+		for k, ts := range texts {
+			if len(ts) != 1 {
+				continue
+			}
+			lone := ""
+			other := ""
+			if uses[k.a] == 1 && k.a != "0" && k.a != "MAX" {
+				lone, other = k.a, k.b
+			} else if uses[k.b] == 1 && k.b != "0" && k.b != "MAX" {
+				lone, other = k.b, k.a
+			}
+			if lone == "" {
+				continue
+			}
+			if other == "0" || other == "MAX" {
+				// only equality with the extreme is free in both directions
+				free := false
+				for t := range ts {
+					if strings.Contains(t, "==") {
+						free = true
+					}
+				}
+				if !free {
+					continue
+				}
+			}
+			collapse[k] = true
+		}
+		if len(collapse) > 0 {
+			var rw func(f *bform) *bform
+			rw = func(f *bform) *bform {
+				if f == nil {
+					return nil
+				}
+				if f.op == "atom" {
+					if k, _ := canonPair(f.a, f.b); collapse[k] {
+						return &bform{op: "opaque", text: f.a + f.rel + f.b}
+					}
+					return f
+				}
+				if len(f.kids) == 0 {
+					return f
+				}
+				out := &bform{op: f.op, a: f.a, b: f.b, rel: f.rel, text: f.text}
+				for _, k := range f.kids {
+					out.kids = append(out.kids, rw(k))
+				}
+				return out
+			}
+			when, then, constraint = rw(when), rw(then), rw(constraint)
+			pairs, opaques = map[pairKey]bool{}, map[string]bool{}
+			collectPairs(when, pairs, opaques)
+			collectPairs(then, pairs, opaques)
+			if constraint != nil {
+				collectPairs(constraint, pairs, opaques)
+			}
+		}
+	}
 	termSet := map[string]bool{}
 	for k := range pairs {
 		termSet[k.a], termSet[k.b] = true, true
@@ -378,8 +467,17 @@ func counterexampleQ(when, then *bform, constraint *bform, forallOpaque bool) st
 		ops = append(ops, o)
 	}
 	sort.Strings(ops)
-	if len(terms) > 7 || len(ops) > 6 {
-		return "formula too large to enumerate"
+	// too large to enumerate: not judged (counted, so that a check can say so) - never reported as a counterexample
+	cost := 1.0
+	for i := 0; i < len(terms); i++ {
+		cost *= float64(len(terms))
+	}
+	for i := 0; i < len(ops); i++ {
+		cost *= 2
+	}
+	if cost > 6e7 {
+		e7TooLarge++
+		return ""
 	}
 	n := len(terms)
 	rank := map[string]int{}
@@ -705,3 +803,6 @@ func pushNegations(f *bform, neg bool) *bform {
 	}
 	return f
 }
+
+// e7TooLarge counts comparisons that were skipped because the formulas mention too many terms.
+var e7TooLarge int
